@@ -24,7 +24,7 @@ MIN_DECIDED = {'quick': 400, 'thorough': 4000}
 CASE_TIMEOUT = {'quick': 120, 'thorough': 1200}
 EXHAUSTIVE_NOTE = 'all 3^(K*K) score matrices over {0,1,2} for K = 1, 2, 3 with algorithms greedy and optimal (2 * (3 + 81 + 19683) calls) are driven completely in both tiers'
 ASSUMPTIONS = ['rows of a mask may coincide (constant / tied masks): only bitwise row identity with the mapped input row is demanded']
-MASKS = ['continuous', 'binary', 'int8', 'int32', 'uint8', 'constant', 'zero', 'tied', 'int8-ones', 'bool']
+MASKS = ['continuous', 'binary', 'int8', 'int32', 'uint8', 'constant', 'zero', 'tied', 'int8-ones', 'bool', 'unitrows', 'huge']
 
 
 def plan(tier, seed):
@@ -88,7 +88,8 @@ def run_matrix(case, R):
     K, lead, dt = case['K'], tuple(case['lead']), case['dtype']
     shape = (*lead, K, K)
     if dt == 'float':
-        sm = rng.standard_normal(shape) * 10 ** rng.uniform(-3, 3)
+        # any finite scale (scores of un-normalised masks: Euclidean distances of tensors scaled by 2^60 are ~1e18)
+        sm = rng.standard_normal(shape) * 10 ** (rng.uniform(-3, 3) if rng.uniform() < 0.7 else rng.uniform(-200, 200))
     elif dt == 'float-ties':
         sm = rng.integers(0, 3, size=shape).astype(float)
     elif dt == 'bool':
@@ -127,6 +128,11 @@ def make_mask(rng, cls, K, F, T):
         return rng.integers(0, 4, size=(K, F, T)).astype(cls)
     if cls == 'bool':
         return rng.uniform(size=(K, F, T)) < 0.4
+    if cls == 'unitrows':
+        m = rng.uniform(0.05, 1, size=(K, F, T))
+        return m / np.linalg.norm(m, axis=-1, keepdims=True)          # every class row has unit L2 norm over time already
+    if cls == 'huge':
+        return rng.uniform(0, 1, size=(K, F, T)) * 2.0 ** 60
     if cls == 'int8-ones':
         return np.ones((K, F, T), dtype=np.int8)
     if cls == 'constant':
